@@ -121,6 +121,10 @@ pub mod source;
 /// [`cross_backend_test_suite!`] macros.
 pub mod test_suite;
 
+/// Verification instrumentation (bounds checks in the layout accessors), only with `--cfg poulpy_verif`.
+#[cfg(poulpy_verif)]
+pub mod verif;
+
 /// Embedded safety contract documentation for backend implementors.
 pub mod doc {
     /// Safety contract that all [`crate::oep`] trait implementations must uphold.
